@@ -54,15 +54,16 @@ class Tree:
             self._remember(name, n)
             return n
 
-        def mkdir(name):
-            n = run(c.create_dirnode())
+        def mkdir(name, version=None):
+            n = run(c.create_dirnode(version=version))
             self._remember(name, n)
             return n
 
         IMM = imm("IMM", 60, 1); LIT = imm("LIT", 10, 2); SF = imm("SF", 61, 3); DF = imm("DF", 62, 4); XF = imm("XF", 63, 5)
         M1 = mut("M1", b"m1 contents", SDMF_VERSION); M2 = mut("M2", b"m2 contents", SDMF_VERSION)
         M3 = mut("M3", b"m3 contents, mdmf", MDMF_VERSION); M4 = mut("M4", b"m4 contents", SDMF_VERSION)
-        ROOT, SUB, D2, D3 = mkdir("ROOT"), mkdir("SUB"), mkdir("D2"), mkdir("D3")
+        # D3 (reached through the read-only link rosub) is an MDMF directory, the others are SDMF
+        ROOT, SUB, D2, D3 = mkdir("ROOT"), mkdir("SUB"), mkdir("D2"), mkdir("D3", MDMF_VERSION)
         run(D3.set_node("f", XF))
         run(D2.set_node("f", DF)); run(D2.set_node("m", M4)); run(D2.set_node("d", D3))
         run(SUB.set_node("f", SF)); run(SUB.set_node("m", M3))
